@@ -29,7 +29,11 @@ def generate(seed, tier):
     for _ in range(g.int(1, 2)):
         p = S.add_file(g, d, big if g.chance(0.3) else 5000)
         total += d['fs'][p]['content']['size']
-        ops.append(S.timeouts(g, {'op': 'pull', 'path': p, 'dest': g.pick(['bytesio', 'file']), 'cb': g.pick([None, 'count', 'raise', 'raise_base'])}))
+        ops.append(S.timeouts(g, {'op': 'pull', 'path': p, 'dest': g.pick(['bytesio', 'file', 'file', 'pathlib', 'bytes_path']), 'cb': g.pick([None, 'count', 'raise', 'raise_base'])}))
+        if g.chance(0.15):
+            # what STAT says about the file is not what RECV delivers (a file that grows, /proc entries with st_size 0, a symlink's lstat)
+            f = d['fs'][p]
+            d.setdefault('stat_override', {})[p] = [f['mode'], g.pick([0, f['content']['size'] // 2, 1, f['content']['size'] + 100]), f['mtime']]
     if g.chance(0.15):
         # the destination fails in the middle of a multi-record pull; the next pull on the same connection must be unaffected
         p0 = S.add_file(g, d, 20000)
